@@ -13,7 +13,7 @@ parts_of() {
     C02|C06|C18|C20) echo "enum" ;;
     C17) echo "enum:filter pmc:twoheight" ;;
     C14|C16) echo "vsched" ;;
-    C13) echo "vsched:runtime pmc:twoheight" ;;
+    C13) echo "vsched:runtime pmc:twoheight racecheck:race" ;;
     C12) echo "vsched:runtime enum:api pmc:protocol" ;;
     C15) echo "enum:registry vsched:runtime" ;;
     C19) echo "enum:formula vsched:races" ;;
@@ -37,6 +37,19 @@ run_part() { # $1 = engine, $2 = part name ("" if single)
       if [ "$tier" = replay ]; then "$bin" -prop "$id" -part "$part" -replay "$path"; else "$bin" -prop "$id" -part "$part" -tier "$tier"; fi ;;
     vsched)
       ./vsched.sh "$id" "$tier" "$path" ;;
+    racecheck)
+      # free-running -race pass: an unsynchronised shared access is a behaviour outside what E2 schedules
+      go build -race -tags verif -o "$bin" ./cmd/racecheck 2> "$bin.log" || { cat "$bin.log" >&2; rm -f "$bin.log"; echo "race build failed" >&2; return 2; }
+      rm -f "$bin.log"
+      local n=150; [ "$tier" = thorough ] && n=1500
+      VERIF_TIER_NAME="$tier" "$bin" $n > "$bin.out" 2>&1; local rrc=$?
+      if grep -q "WARNING: DATA RACE" "$bin.out"; then
+        cp "$bin.out" "replays/$id-data-race.txt"; rm -f "$bin" "$bin.out"
+        echo "VIOLATION property=$id replay=$VERIF_ROOT/replays/$id-data-race.txt"
+        return 1
+      fi
+      tail -1 "$bin.out" >&2; rm -f "$bin.out"
+      [ $rrc = 0 ] || { rm -f "$bin"; return 2; } ;;
   esac
   local rc=$?
   rm -f "$bin"
